@@ -1415,7 +1415,7 @@ class Executor:
         if isinstance(recv, (LL, Comp, KeySet)):
             raise NotInSubset(f"method {name} on a local container", node)
         t = eng.term(recv)
-        if not self.assume_hasattr and not isinstance(recv, Call):
+        if not self.assume_hasattr:
             eng.attr_names.add(name)
             ctx.add_raise(
                 z3.Not(eng.hasattr_(eng.typeof(t), eng.const(name))),
@@ -1569,6 +1569,9 @@ class Executor:
         label = self.ghost_calls.get(key)
         quiet = key in self.nonraising or (isinstance(key, tuple) and len(key) == 2 and key[0] == "meth"
                                            and any(str(key[1]).startswith(p) for p in self.nonraising_prefixes))
+        if label is not None:
+            # a call is an event whether or not it goes on to raise
+            ctx.ghosts.append(("call", label, tuple(args), tuple(kw), ctx.guard_cond()))
         if not quiet:
             r = eng.raises_pred(key, name, args, kw)
             et = eng.exc_term(key, name, args, kw)
@@ -1577,8 +1580,6 @@ class Executor:
             # A3: opaque callees raise only Exception subclasses
             ctx.hyps.append(eng.issub(eng.typeof(et), eng.const(Exception)))
         v = Call(key, name, args, kw)
-        if label is not None:
-            ctx.ghosts.append(("call", label, tuple(args), tuple(kw), ctx.guard_cond()))
         return v
 
 
